@@ -26,7 +26,8 @@ Record Elt := mkElt {
   e_div : E -> E -> res E;
   e_rdiv1 : E -> res E;          (* 1.0 / x *)
   e_pos : E -> E;                (* +x : what UncertainArray.copy() applies to every element *)
-  e_isz : E -> bool;             (* x == 0.0  (and: not (x != 0.0)) *)
+  e_isz : E -> bool;             (* x == 0.0 : compares the VALUE of an uncertain number *)
+  e_skip : E -> bool;            (* isinstance(x, numbers.Number) and x == 0.0 : a plain-number zero *)
   e_abs : E -> W;                (* abs(x) *)
   w_zero : W;                    (* 0.0 *)
   w_gt : W -> W -> bool;
@@ -144,7 +145,8 @@ Section LUModel.
     match ii with
     | Some k => s <- red_sub (fun j => lu i j) b1 (seq k (i - k)) sum ;;
                 Ok (vupd b1 i s, ii)
-    | None => Ok (vupd b1 i sum, if e_isz L sum then None else Some i)   (* elif sum != 0.0: ii = i *)
+    | None => Ok (vupd b1 i sum, if e_skip L sum then None else Some i)
+        (* elif not (isinstance(sum, numbers.Number) and sum == 0.0): ii = i *)
     end.
 
   Definition back_step (n : nat) (lu : mat) (b : vecE) (i : nat) : res vecE :=
@@ -258,7 +260,7 @@ End Transpose.
 Section RingElt.
   Variables (A Wt : Type).
   Variables (rO rI : A) (radd rmul rsub : A -> A -> A) (ropp rinv : A -> A).
-  Variable isz : A -> bool.
+  Variables isz skipz : A -> bool.
   Variable ofZ : Z -> A.
   Variables (absw : A -> Wt) (w0 : Wt) (wgt wge : Wt -> Wt -> bool) (wmul : Wt -> Wt -> Wt)
             (wrecip : Wt -> res Wt).
@@ -273,6 +275,7 @@ Section RingElt.
     e_rdiv1 := fun y => if isz y then Err ZeroDivisionError else Ok (rinv y);
     e_pos := fun x => x;
     e_isz := isz;
+    e_skip := skipz;
     e_abs := absw;
     w_zero := w0; w_gt := wgt; w_ge := wge; w_mul := wmul; w_recip := wrecip
   |}.
